@@ -20,14 +20,25 @@ def rust_len(ls):
     return {2: "length::Llv", 3: "length::Lllv"}.get(d, "length::LlvImpl<%d>" % d)
 
 
+_SPELL = [0]
+
+
+def _spell(inner):
+    _SPELL[0] += 1
+    return (_SPELL[0] * 7 + len(inner)) % 3
+
+
 def rust_ty(t):
     k = t["k"]
     if k == "prim":
         return t["p"]
+    # every spelling a user may write: the macro has to recognise Option / Vec by the LAST path segment
     if k == "opt":
-        return "Option<%s>" % rust_ty(t["t"])
+        inner = rust_ty(t["t"])
+        return ("Option<%s>", "std::option::Option<%s>", "::core::option::Option<%s>")[_spell(inner)] % inner
     if k == "vec":
-        return "Vec<%s>" % rust_ty(t["t"])
+        inner = rust_ty(t["t"])
+        return ("Vec<%s>", "std::vec::Vec<%s>", "::std::vec::Vec<%s>")[_spell(inner)] % inner
     return t["name"].split("::")[-1]
 
 
